@@ -95,20 +95,36 @@ func shrinkLines(lines []string, fails func([]string) bool) []string {
 				}
 			}
 			// shrink the source script
-			if k, arg := splitTok(f[head]); k == "src" && arg != "-" {
+			if k, arg := splitTok(f[head]); (k == "src" || k == "fromit" || k == "slice" || k == "chan") && arg != "-" {
 				toks := strings.Split(arg, ",")
+				mk := func(ts []string) string {
+					if len(ts) == 0 {
+						return k + "=-"
+					}
+					return k + "=" + strings.Join(ts, ",")
+				}
 				small := vlib.Shrink(toks, func(ts []string) bool {
 					g := append([]string{}, f...)
-					g[head] = "src=" + strings.Join(ts, ",")
+					g[head] = mk(ts)
 					cand := append([]string{}, cur...)
 					cand[bi] = strings.Join(g, " ")
 					return fails(cand)
 				})
-				f[head] = "src=" + strings.Join(small, ",")
+				f[head] = mk(small)
 				cand := append([]string{}, cur...)
 				cand[bi] = strings.Join(f, " ")
 				if fails(cand) {
 					cur = cand
+				}
+				// vlib.Shrink keeps at least one token: try the empty script as well
+				if len(small) == 1 {
+					g := append([]string{}, f...)
+					g[head] = mk(nil)
+					cand := append([]string{}, cur...)
+					cand[bi] = strings.Join(g, " ")
+					if fails(cand) {
+						cur, f = cand, g
+					}
 				}
 			}
 		}
@@ -890,6 +906,12 @@ func exhaustive(deadline time.Time) bool {
 			check(append([]string{"itpk src=" + itemsStr(items)}, io...))
 		}
 	})
+	// 2b. the same interleavings with failing calls: every Next/Peek sequence over {live, expired} contexts
+	//     up to depth 5 (sources up to length 4), one transient failure at every position x every sequence
+	//     up to depth 3; then the stream is read to its end with live contexts
+	if !over() {
+		peekFailSpace(4, 5, 3)
+	}
 	// 3. faults: every combinator x every fault position x fault kind, inputs with distinct values
 	//    (and one with duplicates), every consumer stop point after the fault
 	for n := 0; n <= 5 && !over(); n++ {
@@ -1127,8 +1149,13 @@ func main() {
 		"(items, transient and fatal failures, failing callbacks, expired per-call contexts) driven by Next / Peek / Close / reducers / Runs ports / Equal; "+
 		"a case is non-trivial if its scripts hold >= 2 events and at least one consumer operation runs; distinct = different case text. "+
 		"thorough adds: every input over {0,1} up to length 6 x every combinator x every parameter 0..len+1 x Next-run, reducers, xslices and 3-way agreement; "+
-		"every consumer stop point and every Next/Peek interleaving (inputs up to length 4); every combinator x fault position 0..len x "+
-		"{source error, callback error, expired ctx, transient, two faults}")
+		"every consumer stop point and every Next/Peek interleaving (inputs up to length 4), the interleavings also with expired contexts (depth 5) "+
+		"and one transient failure at every position (depth 3); every combinator x fault position 0..len x "+
+		"{source error, callback error, expired ctx, transient, two faults}. "+
+		"Every run starts with a deterministic directed pass: WithPeek over sources of length 0..3 x every Next/Peek sequence with live and expired "+
+		"contexts up to depth 3 (and one transient failure at every position, depth 2) then read to the end; Runs through its ports by the documented "+
+		"protocol with an expired context at every call / a transient failure at every position, each failed call retried; every single-stage "+
+		"configuration x sources of length 0..3 x {expired context on call p, transient at p} then live calls")
 	onHang = func(lines []string) {
 		// the run ends here: say so under the property the case belongs to (fault-free: C07, with faults:
 		// C08) and, as a broken tie that no only_kinds filter drops, for every property this binary serves
@@ -1202,6 +1229,9 @@ func main() {
 			runLines(ls)
 		}
 	}
+	// deterministic in every tier: failed calls (expired context, transient failure) at every position of
+	// every stage that can be holding an item, then a retry (directed.go)
+	directed()
 	r := vlib.NewRand(env.Seed)
 	deadline := env.Deadline()
 	maxCases := 40000
